@@ -210,6 +210,19 @@ enum AT { A { x: i32 }, B, C(i32, i32) }
 #[derive(Debug, PartialEq, Deserialize, DSerialize, Clone)]
 #[serde(untagged)]
 enum UT { N(i32), S(String), P { x: i32 } }
+// nulls that serde buffers before it reads them as units (internally tagged / untagged enums, flatten); a catch-all variant
+#[derive(Debug, PartialEq, Deserialize, DSerialize, Clone)]
+#[serde(tag = "kind")]
+enum ITU { Ping { seq: u32, marker: Unit }, Tick { ghost: () } }
+#[derive(Debug, PartialEq, Deserialize, DSerialize, Clone)]
+#[serde(untagged)]
+enum UTU { Pair { a: (), b: bool }, Num(i64) }
+#[derive(Debug, PartialEq, Deserialize, DSerialize, Clone)]
+struct InnerU { ack: (), n: i32 }
+#[derive(Debug, PartialEq, Deserialize, DSerialize, Clone)]
+struct FlatU { id: i32, #[serde(flatten)] inner: InnerU }
+#[derive(Debug, PartialEq, Deserialize, DSerialize, Clone)]
+enum Level { Low, Medium, High(u8), #[serde(other)] Unknown }
 #[derive(Debug, PartialEq, Deserialize, DSerialize, Clone)]
 #[serde(deny_unknown_fields)]
 struct Strict { id: i32, #[serde(default)] note: Option<String> }
@@ -261,10 +274,10 @@ where
     (sa, sb, rt)
 }
 
-pub const TYPES: [&str; 40] = ["bool", "i8", "u8", "i32", "i64", "u64", "f64", "char", "String", "Option<i32>", "()", "Unit", "Newtype",
+pub const TYPES: [&str; 45] = ["bool", "i8", "u8", "i32", "i64", "u64", "f64", "char", "String", "Option<i32>", "()", "Unit", "Newtype",
     "Vec<i32>", "Vec<u8>", "(i32,String)", "Pair", "Point", "E", "BTreeMap<String,i32>", "Vec<Option<bool>>", "Outer", "Option<E>", "Vec<Point>",
     "BTreeMap<UserId,Vec<u32>>", "BTreeMap<char,i32>", "BTreeMap<Color,i32>", "Flat", "Vec<UserId>",
-    "[i32;2]", "Box<Point>", "(UserId,i32)", "BTreeMap<String,Option<Point>>", "IT", "AT", "UT", "FirstEntry", "Vec<IT>", "Strict", "Vec<Strict>"];
+    "[i32;2]", "Box<Point>", "(UserId,i32)", "BTreeMap<String,Option<Point>>", "IT", "AT", "UT", "FirstEntry", "Vec<IT>", "Strict", "Vec<Strict>", "ITU", "UTU", "FlatU", "Level", "Vec<Level>"];
 
 fn dec_by_name(ty: &str, var: &Variable, val: &Value) -> (String, String, bool) {
     match ty {
@@ -310,6 +323,11 @@ fn dec_by_name(ty: &str, var: &Variable, val: &Value) -> (String, String, bool) 
         "Vec<IT>" => dec::<Vec<IT>>(var, val),
         "Strict" => dec::<Strict>(var, val),
         "Vec<Strict>" => dec::<Vec<Strict>>(var, val),
+        "ITU" => dec::<ITU>(var, val),
+        "UTU" => dec::<UTU>(var, val),
+        "FlatU" => dec::<FlatU>(var, val),
+        "Level" => dec::<Level>(var, val),
+        "Vec<Level>" => dec::<Vec<Level>>(var, val),
         _ => ("?".into(), "?".into(), false),
     }
 }
@@ -407,13 +425,13 @@ where
     (img(T::deserialize(var.clone()).ok()), img(serde_json::from_value::<T>(val.clone()).ok()))
 }
 
-pub const MODEL_TYPES: [(&str, &str); 40] = [("bool", "bool"), ("i8", "i8"), ("u8", "u8"), ("i32", "i32"), ("i64", "i64"), ("u64", "u64"), ("f64", "f64"),
+pub const MODEL_TYPES: [(&str, &str); 45] = [("bool", "bool"), ("i8", "i8"), ("u8", "u8"), ("i32", "i32"), ("i64", "i64"), ("u64", "u64"), ("f64", "f64"),
     ("char", "char"), ("String", "String"), ("OptI32", "Option<i32>"), ("unit", "()"), ("Unit", "Unit"), ("Newtype", "Newtype"), ("VecI32", "Vec<i32>"),
     ("VecU8", "Vec<u8>"), ("TupI32String", "(i32,String)"), ("Pair", "Pair"), ("Point", "Point"), ("E", "E"), ("MapStringI32", "BTreeMap<String,i32>"),
     ("VecOptBool", "Vec<Option<bool>>"), ("Outer", "Outer"), ("OptE", "Option<E>"), ("VecPoint", "Vec<Point>"), ("MapUserIdVecU32", "BTreeMap<UserId,Vec<u32>>"),
     ("MapCharI32", "BTreeMap<char,i32>"), ("MapColorI32", "BTreeMap<Color,i32>"), ("Flat", "Flat"), ("VecUserId", "Vec<UserId>"), ("ArrI32x2", "[i32;2]"),
     ("BoxPoint", "Box<Point>"), ("TupUserIdI32", "(UserId,i32)"), ("MapStringOptPoint", "BTreeMap<String,Option<Point>>"), ("IT", "IT"), ("AT", "AT"),
-    ("UT", "UT"), ("FirstEntry", "FirstEntry"), ("VecIT", "Vec<IT>"), ("Strict", "Strict"), ("VecStrict", "Vec<Strict>")];
+    ("UT", "UT"), ("FirstEntry", "FirstEntry"), ("VecIT", "Vec<IT>"), ("Strict", "Strict"), ("VecStrict", "Vec<Strict>"), ("ITU", "ITU"), ("UTU", "UTU"), ("FlatU", "FlatU"), ("Level", "Level"), ("VecLevel", "Vec<Level>")];
 
 fn dec_img_by_name(ty: &str, var: &Variable, val: &Value) -> Option<(Value, Value)> {
     Some(match ty {
@@ -457,6 +475,11 @@ fn dec_img_by_name(ty: &str, var: &Variable, val: &Value) -> Option<(Value, Valu
         "Vec<IT>" => dec_img::<Vec<IT>>(var, val),
         "Strict" => dec_img::<Strict>(var, val),
         "Vec<Strict>" => dec_img::<Vec<Strict>>(var, val),
+        "ITU" => dec_img::<ITU>(var, val),
+        "UTU" => dec_img::<UTU>(var, val),
+        "FlatU" => dec_img::<FlatU>(var, val),
+        "Level" => dec_img::<Level>(var, val),
+        "Vec<Level>" => dec_img::<Vec<Level>>(var, val),
         _ => return None,
     })
 }
